@@ -18,7 +18,7 @@ const B: &[&str] = &[
     "pairs_equal_instant_diff_offset", "pairs_ordered", "convert_zone", "accessors", "text_forms", "leap_second_value",
     "replace_some", "replace_none_no_such_value", "replace_none_instant_out_of_range", "replace_in_headroom", "with_year_same_year_headroom",
     "with_time", "step_days_some", "step_days_none", "step_months_some", "step_months_none", "step_from_headroom", "variable_offset_zone",
-    "local_zone_conversions",
+    "local_zone_conversions", "deprecated_panicking_twins",
 ];
 const FLOOR: &[&str] = B;
 
@@ -953,6 +953,7 @@ pub fn run(ctx: &Ctx) -> Outcome {
     // 2c. a zone whose offset changes (user-defined TimeZone)
     phase_step_zone(ctx, &rep, bi("variable_offset_zone"));
     phase_local_child(ctx, &rep, bi("local_zone_conversions"));
+    crate::props::twins::c04(ctx, &rep, bi("deprecated_panicking_twins"));
 
     // 3. pairs
     {
